@@ -53,7 +53,12 @@ def segment_case(ck, text_units, nfolds, njobs, family, plan=None, raw_text=None
                 h = hashlib.sha1(('\n'.join(lines) + '\n').encode('utf8')).hexdigest()
                 p = os.path.join(cap, h + '.out')
                 outputs.append(open(p, encoding='utf8').read().split('\n') if os.path.exists(p) else None)
-        first_lens = [len(f[0]) for f in mf[1][0]] if mf[0] == 0 and all(len(f) for f in mf[1][0]) else []
+        # what the program really received (whatever the model thinks): first line of every fold
+        first_lens = []
+        for fn in os.listdir(cap):
+            if fn.endswith('.in'):
+                fl = open(os.path.join(cap, fn), encoding='utf8').read().split('\n')
+                first_lens.append(len(fl[0]) if fl else 0)
     finally:
         json.dump({}, open(PLAN, 'w'))
     desc = {'text': text, 'nfolds': nfolds, 'njobs': njobs, 'family': family, 'plan': plan}
@@ -65,12 +70,12 @@ def segment_case(ck, text_units, nfolds, njobs, family, plan=None, raw_text=None
     def oracle(out):
         if plan or raw_text is not None:
             return None            # outside the property's quantifier: correspondence only
-        if out[0] == 'raise':
-            return None if out[1] in ('ValueError', 'RuntimeError') else 'raised %s (only ValueError/RuntimeError allowed)' % out[1]
-        if plan:
-            return None
+        if out[0] == 'raise' and out[1] not in ('ValueError', 'RuntimeError'):
+            return 'raised %s (only ValueError/RuntimeError allowed)' % out[1]
         if any(l == 1 for l in first_lens):
             return 'a fold handed to the program starts with a one-symbol line'
+        if out[0] == 'raise':
+            return None
         return gens.aligned([l.split() for l in text], out[1])
     c = dict(op=304, arg=[text2j(text), text2j(order), nfolds, [text2j(o) for o in outputs] if mf[0] == 0 else []], site='dpseg.segment', desc=desc,
              impl=(lambda res=res: res), dec=lambda w: decode_result(w, j2text), oracle=oracle,
